@@ -186,7 +186,29 @@ class RefModel:
             return self.traj()["Xnode"][node]
         return {s["name"]: self.ph["xc:" + s["name"]][node] for s in self.states}
 
+    def dc_z_at(self, idx, tau):
+        """DirectCollocation: algebraic values on integration interval `idx` at normalised time tau, from the polynomial
+        through the values at the collocation roots (the decision variables) -- independent of rockit's node values"""
+        d = self.d
+        w = []
+        for j in range(d):
+            lj = 1.0
+            for r in range(d):
+                if r != j:
+                    lj *= (tau - self.tau[r]) / (self.tau[j] - self.tau[r])
+            w.append(lj)
+        out = {}
+        for s in self.algs:
+            nm = "zr:" + s["name"]
+            if nm in self.ph:
+                out[s["name"]] = sum(w[j] * np.asarray(self.ph[nm][idx * d + j], dtype=float) for j in range(d))
+        return out
+
     def node_alg(self, node):
+        if self.cls == "DC" and self.algs and all(("zr:" + s["name"]) in self.ph for s in self.algs):
+            if node < self.N:
+                return self.dc_z_at(node * self.M, 0.0)
+            return self.dc_z_at(self.N * self.M - 1, 1.0)
         out = {}
         for s in self.algs:
             nm = "zc:" + s["name"]
@@ -553,7 +575,10 @@ class RefModel:
         if self.cls == "DC":
             idx = k * self.M + l
             x = {s["name"]: self.ph["xi:" + s["name"]][idx] for s in self.states}
-            z = {s["name"]: self.ph["zi:" + s["name"]][idx] for s in self.algs if ("zi:" + s["name"]) in self.ph}
+            if self.algs and all(("zr:" + s["name"]) in self.ph for s in self.algs):
+                z = self.dc_z_at(idx, 0.0)
+            else:
+                z = {s["name"]: self.ph["zi:" + s["name"]][idx] for s in self.algs if ("zi:" + s["name"]) in self.ph}
             xq = None
         else:
             tr = self.traj()
